@@ -7,7 +7,7 @@
    golang.org/x/net/html tokenizer on the form).  [model] must reproduce all
    of it byte for byte; [spec] looks only at the user agent's reading and at
    the values the provider put in (the ground truth of the input). *)
-From OIDC Require Import Lib C11_Url C11_Html.
+From OIDC Require Export Lib C11_Url C11_Html.
 
 (* the values the provider puts into the response (Go structs with schema tags) *)
 Inductive response :=
@@ -88,7 +88,7 @@ Definition url_obs (u : purl) (loc : string) : observed :=
 
 Definition present_fields (params : pairs) : list string :=
   filter (fun n => match lookup n params with Some _ => true | None => false end)
-         (map fst form_fields).
+         form_fields.
 
 Definition value_of (n : string) (params : pairs) : string :=
   match lookup n params with Some v => v | None => EmptyString end.
@@ -166,10 +166,13 @@ Fixpoint is_prefix (a b : list string) : bool :=
    exactly the produced value (after the redirect URI's own values of that
    name, if any); every parameter of the redirect URI keeps its values; the
    redirect target is untouched. *)
-Definition url_spec (prefix : string) (ch : channel) (want : pairs) (o : observed) : bool :=
+Definition url_spec (via_redirect : bool) (prefix : string) (ch : channel) (want : pairs)
+                    (o : observed) : bool :=
   match o with
   | OUrl _ base q f pre =>
-      String.eqb base prefix
+      (* http.Redirect percent-encodes non-ASCII bytes of the target: same URL *)
+      (if via_redirect then String.eqb (lenient_unescape base) (lenient_unescape prefix)
+       else String.eqb base prefix)
       && match ch with
          | ChQuery =>
              forallb (fun k => if listed k
@@ -206,13 +209,13 @@ Definition spec (i : input) (o : observed) : bool :=
   match i with
   | IUrl _ None _ _ _ => match o with OFail => true | _ => false end
   | IUrl _ (Some u) rtype rmode r =>
-      url_spec (u_prefix u) (expected_channel rtype rmode) (produced r) o
+      url_spec false (u_prefix u) (expected_channel rtype rmode) (produced r) o
   | IForm redirect r => form_spec redirect (produced r) o
   | ICode redirect parsed rtype rmode code st ss =>
       if String.eqb rmode "form_post" then form_spec redirect (produced (RCode code st ss)) o
       else match parsed with
            | None => match o with OFail => true | _ => false end
-           | Some u => url_spec (u_prefix u) (expected_channel rtype rmode)
+           | Some u => url_spec true (u_prefix u) (expected_channel rtype rmode)
                                 (produced (RCode code st ss)) o
            end
   | IErr redirect parsed rtype rmode etype desc st ss disabled =>
@@ -221,7 +224,7 @@ Definition spec (i : input) (o : observed) : bool :=
                  || match parsed with None => true | Some _ => false end
       | OUrl _ _ _ _ _ =>
           match parsed with
-          | Some u => url_spec (u_prefix u) (expected_channel rtype rmode)
+          | Some u => url_spec true (u_prefix u) (expected_channel rtype rmode)
                                (produced (RError etype desc st ss)) o
           | None => false
           end
@@ -246,6 +249,12 @@ Definition url_wf (u : purl) : bool :=
   negb (mem_char "?" (u_prefix u)) && negb (mem_char "#" (u_prefix u))
   && negb (mem_char "#" (u_raw_query u)).
 
+Definition ascii_only (s : string) : bool := all_chars (fun c => (byte_n c <? 128)%N) s.
+(* calls that go through http.Redirect: the theorems cover redirect URIs whose
+   rendered prefix and raw query are ASCII (then hexEscapeNonASCII is the identity) *)
+Definition url_wf_redirect (u : purl) : bool :=
+  url_wf u && ascii_only (u_prefix u) && ascii_only (u_raw_query u).
+
 Definition is_error (r : response) : bool := match r with RError _ _ _ _ => true | _ => false end.
 
 Definition wf (i : input) : bool :=
@@ -255,9 +264,9 @@ Definition wf (i : input) : bool :=
   | IForm redirect r => is_safe_url redirect && url_clean redirect && negb (is_error r)
   | ICode redirect parsed _ rmode _ _ _ =>
       if String.eqb rmode "form_post" then is_safe_url redirect && url_clean redirect
-      else match parsed with None => true | Some u => url_wf u end
+      else match parsed with None => true | Some u => url_wf_redirect u end
   | IErr _ None _ _ _ _ _ _ _ => true
-  | IErr _ (Some u) _ _ _ _ _ _ _ => url_wf u
+  | IErr _ (Some u) _ _ _ _ _ _ _ => url_wf_redirect u
   end.
 
 (* decision-path class of the model run; 0 = nothing delivered *)
